@@ -546,29 +546,50 @@ impl<R: Read + Seek> Seek for CompressionLayerReader<'_, R> {
 struct WriterWithCount<W: Write> {
     inner: W,
     pos: u32,
+    /// First write error met. `CompressorWriter::into_inner` ends the
+    /// compressed stream but drops the errors of these last writes: it is kept
+    /// here to be reported by the caller
+    error: Option<io::Error>,
 }
 
 impl<W: Write> WriterWithCount<W> {
     const fn new(inner: W) -> Self {
-        Self { inner, pos: 0 }
+        Self {
+            inner,
+            pos: 0,
+            error: None,
+        }
     }
 
     fn into_inner(self) -> W {
         self.inner
     }
+
+    /// First error met by the writes, if any
+    const fn take_error(&mut self) -> Option<io::Error> {
+        self.error.take()
+    }
 }
 
 impl<W: Write> Write for WriterWithCount<W> {
     fn write(&mut self, buf: &[u8]) -> io::Result<usize> {
-        self.inner.write(buf).inspect(|&i| {
-            match u32::try_from(i) {
-                Ok(value) => self.pos += value,
-                Err(_) => {
-                    // Handle the error explicitly
-                    let _ = io::Error::new(io::ErrorKind::InvalidData, "Integer conversion failed");
+        self.inner
+            .write(buf)
+            .inspect(|&i| {
+                match u32::try_from(i) {
+                    Ok(value) => self.pos += value,
+                    Err(_) => {
+                        // Handle the error explicitly
+                        let _ =
+                            io::Error::new(io::ErrorKind::InvalidData, "Integer conversion failed");
+                    }
                 }
-            }
-        })
+            })
+            .inspect_err(|err| {
+                if self.error.is_none() && err.kind() != io::ErrorKind::Interrupted {
+                    self.error = Some(io::Error::new(err.kind(), err.to_string()));
+                }
+            })
     }
 
     fn flush(&mut self) -> io::Result<()> {
@@ -656,7 +677,10 @@ impl<'a, W: 'a + InnerWriterTrait> LayerWriter<'a, W> for CompressionLayerWriter
         let mut inner = match old_state {
             CompressionLayerWriterState::Ready(inner) => inner,
             CompressionLayerWriterState::InData(written, compress) => {
-                let inner_count = compress.into_inner();
+                let mut inner_count = compress.into_inner();
+                if let Some(err) = inner_count.take_error() {
+                    return Err(err.into());
+                }
                 self.compressed_sizes.push(inner_count.pos);
                 last_block_size = written;
                 inner_count.into_inner()
@@ -736,7 +760,10 @@ impl<'a, W: 'a + InnerWriterTrait> Write for CompressionLayerWriter<'a, W> {
                     ).into());
                 }
                 if written == UNCOMPRESSED_DATA_SIZE {
-                    let inner_count = compress.into_inner();
+                    let mut inner_count = compress.into_inner();
+                    if let Some(err) = inner_count.take_error() {
+                        return Err(err);
+                    }
                     self.compressed_sizes.push(inner_count.pos);
                     self.state = CompressionLayerWriterState::Ready(inner_count.into_inner());
                     // Start a new block, fill it with new values!
